@@ -593,10 +593,16 @@ func (e *Env) Exec(op Op) Result {
 	case "Sub":
 		sub, err := v.Sub(op.P)
 		if err == nil && sub != nil {
-			// the view is used once: what it shows of its own root.
-			_, serr := sub.Stat(string(sub.PathSeparator()))
+			// the view is used once: what it shows of its own root (the entries of the directory it was made of).
+			root := string(sub.PathSeparator())
+			if cwd, err := sub.Getwd(); err == nil {
+				root = avfs.VolumeName(sub, cwd) + root // the volume the view was made on
+			}
 
-			return res(nil, "root:"+ErrClass(serr))
+			_, serr := sub.Stat(root)
+			ents, rerr := sub.ReadDir(root)
+
+			return res(nil, "root:"+ErrClass(serr)+" list:"+ErrClass(rerr)+" "+entriesString(ents, true))
 		}
 
 		return res(err, "")
